@@ -115,8 +115,10 @@ def run_conn(ctx, proof_only=False):
     seen_msgs = {}
     for lbl, cmd, line in spec_mm:
         msg = line.split("]", 1)[1].strip() if "]" in line else line
+        if "max_borrowed=" in msg and ": " in msg:
+            msg = msg.split(": ", 1)[1]      # the verdict without the configuration numbers
         seen_msgs.setdefault(msg, []).append((lbl, cmd, line))
-    for msg, lst in list(seen_msgs.items())[:3]:
+    for msg, lst in list(seen_msgs.items())[:2]:
         # re-run at most two harness jobs, cut out the candidate executions, keep the shortest
         best = None
         by_cmd = {}
